@@ -45,11 +45,18 @@ def gen_case(rng, i):
         r = rng.choice(base)                            # same left side, different bounds, any order
         S.insert(rng.randint(0, len(S)), weakened(r, rng.choice([1, 2])))
     elif shape == 5:
-        small = [r for r in base if len(r[0]) <= 2 and float(r[1]).is_integer()] or base
+        two = [r for r in base if len(r[0]) >= 2 and all(float(a).is_integer() for a in r[0].values())]
+        if two:
+            r = rng.choice(two)
+        else:                                                # the twin must involve two variables (see near_twin)
+            r = ({vs[0]: rng.choice([1, -2, 3]), vs[-1] if nv > 1 else "q": rng.choice([-1, 2])}, 0)
+            S.append(r)
+        b, twin = near_twin(rng, r)
+        S[S.index(r)] = b
         if rng.random() < 0.5:
-            S.append(near_twin(rng, rng.choice(small)))      # nearly equal, not implied
+            S.append(twin)                                   # nearly equal, not implied
         else:
-            ctx.append(near_twin(rng, rng.choice(small)))    # a near twin of a list row sits in the context
+            ctx.append(twin)                                 # a near twin of a list row sits in the context
     elif shape == 6:
         # planted contradiction: r and its negation pushed apart
         r = rng.choice(base)
@@ -86,7 +93,7 @@ def main(tier, replay=None):
         PROP, tier, gen_cases(tier), run_case,
         "(list, context) with <= 6 rows over <= 5 variables and planted redundancy: duplicates, scalings, positive combinations "
         "(slack 0, 2^-10, 1), rows implied only through the context, same left side with different bounds in any position, "
-        "near twins (relative 2^-17), contradictions; through TermList.simplify with/without context and through contract "
+        "near twins (integer rows scaled by 10^5, one coefficient off by one), contradictions; through TermList.simplify with/without context and through contract "
         "construction; non-trivial = simplification returned and dropped at least one row, or raised on an infeasible system",
         owner=lambda ev: PROP, replay=replay,
         extra=lambda rep, rd: __import__("lpalgo").conformance(rep, rd, PROP, {"reduce"}, 200 if tier == "quick" else 4000, seed()),
